@@ -390,7 +390,80 @@ def renderH : Handler := fun inp impl => do
       else if newline then "newline-in-value" else cls
     return ({ model := m, agree := agree, spec := spec, nontrivial := !negDur && items.any (·.kind != "text"), tag := tag } : Verdict).toJson
 
+/-! ### concurrent logging through one logger -/
+
+def fnvString (s : String) : UInt64 := s.toUTF8.foldl fnvStep 14695981039346656037
+
+/-- event (g, i) of the `c20.concurrent` stream (same formulas as `c20ConcEvent` in the harness) -/
+def concEvent (g i : Nat) : Event :=
+  let n (k : Nat) : List Char := (toString k).toList
+  { remoteAddr := "10.0.".toList ++ n g ++ ['.'] ++ n (i % 250) ++ [':'] ++ n (1000 + i)
+    method := "GET".toList
+    requestURI := "/w".toList ++ n g ++ ['/'] ++ List.replicate ((g * 7 + i) % 40) 'x' ++ ['/'] ++ n i
+    proto := "HTTP/1.1".toList
+    host := 'h' :: n g
+    header := some [("X-Id".toList, [n g ++ ['-'] ++ n i])]
+    upstreamAddr := "10.1.".toList ++ n g ++ ".1:".toList ++ n (8000 + g)
+    upstreamService := "svc".toList ++ n g
+    status := 200 + g, contentLength := g * 1000000 + i
+    durNs := ((g * 1000 + i) * 1000 : Nat), unixNano := 1580702706000000000
+    year := 2020, month := 2, day := 3, hour := 4, minute := 5, second := 6, nanos := 0 }
+
+/-- Sum (mod 2^64, order independent) of the checksums of the lines `f` yields for all events. -/
+def concSum (workers per : Nat) (f : Event → Option String) : Option UInt64 := Id.run do
+  let mut acc : UInt64 := 0
+  for g in [0:workers] do
+    for i in [0:per] do
+      match f (concEvent g i) with
+      | some l => acc := acc + fnvString l
+      | none => return none
+  return some acc
+
+def concurrentH : Handler := fun inp impl => do
+  let itemsJ ← inp.getObjValAs? (Array Json) "items"
+  let items ← itemsJ.toList.mapM fun j => do
+    let k ← j.getObjValAs? String "k"
+    let v ← j.getObjValAs? String "v"
+    pure ({ kind := k, v := v.toList } : RItem)
+  let workers ← inp.getObjValAs? Nat "workers"
+  let per ← inp.getObjValAs? Nat "per"
+  if workers > 64 || per > 5000 then throw "workers/per out of range"
+  let format := items.flatMap itemSrc
+  let n := workers * per
+  -- model: every event alone through newAndLog
+  let msum := concSum workers per fun e => match newAndLog format e with
+    | .ok (.written out) => some (String.ofList out)
+    | _ => none
+  let m := match msum with
+    | some h => Json.mkObj [("lines", n), ("sum", hex64 h)]
+    | none => Json.mkObj [("new_err", true)]
+  if isPanicJ impl then
+    return ({ model := m, agree := false, spec := false, nontrivial := true, tag := "panic" } : Verdict).toJson
+  if (impl.getObjVal? "new_err").toOption.isSome then
+    return ({ model := m, agree := msum.isNone, spec := !wellSeparated items || items.isEmpty || items.any (fun it => it.kind == "field" && !knownDoc it.v),
+              nontrivial := false, tag := "new-error" } : Verdict).toJson
+  let lines ← impl.getObjValAs? Nat "lines"
+  let isum ← impl.getObjValAs? String "sum"
+  let ci := Json.mkObj [("lines", lines), ("sum", isum)]
+  let get (k : String) : Nat := (impl.getObjValAs? Nat k).toOption.getD 1
+  let endsNl := (impl.getObjValAs? Bool "ends_nl").toOption.getD false
+  -- reference: the items rendered from Nat.repr etc., one line per event
+  let rsum := concSum workers per fun e =>
+    let parts := items.map (refItem e)
+    if parts.all (·.isSome) then some (String.ofList ((parts.map (·.getD [])).flatten ++ ['\n'])) else none
+  let counts := lines == n && get "writes" == n && get "missing" == 0 && get "dup" == 0 && get "foreign" == 0 &&
+    get "panics" == 0 && endsNl && get "events" == n
+  let spec := !wellSeparated items || (counts && rsum.map hex64 == some isum)
+  let tag := if !wellSeparated items then "ill-separated"
+    else if get "panics" != 0 then "panic"
+    else if get "foreign" != 0 then "foreign-or-torn-line"
+    else if get "missing" != 0 || lines < n then "line-lost"
+    else if get "dup" != 0 || lines > n then "line-duplicated"
+    else if !counts || rsum.map hex64 != some isum then "sink-differs"
+    else if workers ≥ 2 then "intact" else "single-thread"
+  return ({ model := m, agree := m == ci, spec := spec, nontrivial := workers ≥ 2 && wellSeparated items, tag := tag } : Verdict).toJson
+
 def streams : List (String × Handler) := [
   ("c20.atoi", atoiH), ("c20.i32toa", i32toaH), ("c20.i32block", i32blockH), ("c20.i32sweep", i32sweepH), ("c20.uint16", uint16H),
-  ("c20.uuid", uuidH), ("c20.hostport", hostportH), ("c20.parse", parseH), ("c20.render", renderH)]
+  ("c20.uuid", uuidH), ("c20.hostport", hostportH), ("c20.parse", parseH), ("c20.render", renderH), ("c20.concurrent", concurrentH)]
 end Fabio.Driver.C20
